@@ -21,15 +21,23 @@ theorem peek_not (s : Sc) (R : Bytes) (hs : s.rest = R) (p : UInt8 → Bool) (hR
     rw [hd, hk] at this
     exact absurd this (by decide)
 
-/-- what may follow a numeral: nothing, or a byte that is neither alphanumeric nor a dot. -/
-def numStop (c : UInt8) : Bool := LexSpec.isAlnum c || c == 46
+/-- what may follow a numeral: nothing, or a byte that is not alphanumeric — and no dot where the reference lexer
+    would take it into the numeral. -/
+theorem follow_num (n : Numeral) (r : Bytes) (hf : follow (.num n) r = true) :
+    HeadNot LexSpec.isAlnum r ∧ (n.dotContinues = true → HeadNot (fun c => c == 46) r) := by
+  constructor
+  · apply follow_headNot _ r hf
+    intro d r'
+    simp only [follow, Bool.and_eq_true, Bool.not_eq_true']
+    exact fun h => h.1
+  · intro hd
+    apply follow_headNot _ r hf
+    intro d r'
+    simp only [follow, hd, Bool.and_true, Bool.and_eq_true, Bool.not_eq_true']
+    exact fun h => h.2
 
-theorem follow_num (n : Numeral) (r : Bytes) (hf : follow (.num n) r = true) : HeadNot numStop r := by
-  apply follow_headNot _ r hf
-  intro d r'
-  simp only [follow, numStop, Bool.and_eq_true, Bool.not_eq_true', bne_iff_ne, Bool.or_eq_false_iff,
-    beq_eq_false_iff_ne]
-  exact fun h => h
+/-- what stops every numeral: a byte that is neither alphanumeric nor a dot. -/
+def numStop (c : UInt8) : Bool := LexSpec.isAlnum c || c == 46
 
 theorem headNot_mono (p q : UInt8 → Bool) (h : ∀ c, q c = true → p c = true) (r : Bytes) (hr : HeadNot p r) :
     HeadNot q r := by
@@ -39,19 +47,33 @@ theorem headNot_mono (p q : UInt8 → Bool) (h : ∀ c, q c = true → p c = tru
   | false => rfl
   | true => rw [h c hq] at this; exact absurd this (by decide)
 
-theorem numStop_digit (r : Bytes) (hr : HeadNot numStop r) : HeadNot LexSpec.isDigit r :=
-  headNot_mono _ _ (fun c h => by simp [numStop, digit_alnum c h]) r hr
+theorem alnum_digit (r : Bytes) (hr : HeadNot LexSpec.isAlnum r) : HeadNot LexSpec.isDigit r :=
+  headNot_mono _ _ (fun c h => digit_alnum c h) r hr
 
-theorem numStop_hex (r : Bytes) (hr : HeadNot numStop r) : HeadNot LexSpec.isHex r :=
-  headNot_mono _ _ (fun c h => by simp [numStop, hex_alnum c h]) r hr
+theorem alnum_hex (r : Bytes) (hr : HeadNot LexSpec.isAlnum r) : HeadNot LexSpec.isHex r :=
+  headNot_mono _ _ (fun c h => hex_alnum c h) r hr
 
-/-- the exponent part of `scanNumberTail`. -/
+/-- `numeralEnd` behind a complete numeral: nothing to complain about. -/
+theorem numeralEnd_ok_of (buf : Buf) (s : Sc) (dots : Bool) (r : Bytes) (hs : s.rest = r)
+    (hra : HeadNot LexSpec.isAlnum r) (hd : dots = true → HeadNot (fun c => c == 46) r) :
+    numeralEnd buf s dots = .ok (buf, s) := by
+  have h1 : isIdent (peek s) 1 = false :=
+    peek_headNot LexSpec.isAlnum (fun c => isIdent c 1) isIdent1_eq (by decide) r hra s hs
+  unfold numeralEnd
+  rw [if_pos]
+  refine ⟨by rw [h1]; decide, ?_⟩
+  rintro ⟨hdt, hp⟩
+  exact peek_not s r hs _ (hd hdt) 46 (by decide) hp
+
+/-- the exponent part of `scanNumberTail` (with the `numeralEnd` exits). -/
 def numExp (f : Buf × Sc) : Except LexErr (Buf × Sc) :=
   if peek f.2 = 101 ∨ peek f.2 = 69 then
     if isDecimal (peek (scanNumberExpPre f).2) then
-      .ok (scanDecimal (next (scanNumberExpPre f).2).1 (scanNumberExpPre f).1 (next (scanNumberExpPre f).2).2)
+      numeralEnd
+        (scanDecimal (next (scanNumberExpPre f).2).1 (scanNumberExpPre f).1 (next (scanNumberExpPre f).2).2).1
+        (scanDecimal (next (scanNumberExpPre f).2).1 (scanNumberExpPre f).1 (next (scanNumberExpPre f).2).2).2 false
     else .error (mkErr (scanNumberExpPre f).2 (scanNumberExpPre f).1 "malformed number")
-  else .ok f
+  else numeralEnd f.1 f.2 true
 
 theorem scanNumberTail_eq (ch : Int) (buf : Buf) (s : Sc) :
     scanNumberTail ch buf s = numExp (scanNumberFrac ch buf s) := rfl
@@ -63,15 +85,20 @@ theorem digit_facts (d : UInt8) : LexSpec.isDigit d = true →
   revert d; apply forall_byte; unfold Plain; decide +kernel
 
 theorem numExp_run (ex : Option Exp) (hex : (match ex with | some x => x.wf | none => true) = true) (r : Bytes)
-    (hr : HeadNot numStop r) (buf : Buf) (s : Sc) (hs : s.rest = renderExp ex ++ r) :
+    (hra : HeadNot LexSpec.isAlnum r) (hdot : ex = none → HeadNot (fun c => c == 46) r)
+    (buf : Buf) (s : Sc) (hs : s.rest = renderExp ex ++ r) :
     ∃ s', numExp (buf, s) = .ok (buf ++ renderExp ex, s') ∧ s'.rest = r := by
   cases ex with
   | none =>
     simp only [renderExp, List.nil_append] at hs
-    have h1 : ¬ peek s = 101 := peek_not s r hs numStop hr 101 (by decide)
-    have h2 : ¬ peek s = 69 := peek_not s r hs numStop hr 69 (by decide)
+    have h1 : ¬ peek s = 101 := peek_not s r hs LexSpec.isAlnum hra 101 (by decide)
+    have h2 : ¬ peek s = 69 := peek_not s r hs LexSpec.isAlnum hra 69 (by decide)
     refine ⟨s, ?_, hs⟩
-    simp [numExp, h1, h2, renderExp]
+    unfold numExp
+    rw [if_neg (by intro h; rcases h with h | h; exact h1 h; exact h2 h)]
+    simp only []
+    rw [numeralEnd_ok_of buf s true r hs hra (fun _ => hdot rfl)]
+    simp [renderExp]
   | some x =>
     obtain ⟨e, sign, ds⟩ := x
     simp only [Exp.wf, Bool.and_eq_true, Bool.or_eq_true, beq_iff_eq, bne_iff_ne, ne_eq] at hex
@@ -83,7 +110,7 @@ theorem numExp_run (ex : Option Exp) (hex : (match ex with | some x => x.wf | no
       obtain ⟨hd, hds'⟩ := hds
       obtain ⟨dpl, d43, d45, _⟩ := digit_facts d hd
       have hepl : Plain e := by rcases he with rfl | rfl <;> (unfold Plain; decide)
-      have hrd := numStop_digit r hr
+      have hrd := alnum_digit r hra
       cases sign with
       | none =>
         have hs1 : s.rest = e :: (d :: (ds' ++ r)) := by rw [hs]; simp [renderExp, Exp.render]
@@ -111,6 +138,7 @@ theorem numExp_run (ex : Option Exp) (hex : (match ex with | some x => x.wf | no
         simp only []
         rw [hp1, isDecimal_eq, hd]
         simp only [if_true, scanDecimal]
+        rw [numeralEnd_ok_of _ _ false r g2 hra (by intro h; cases h)]
         refine congrArg _ (Prod.ext ?_ rfl)
         rw [g1, e1, f1]
         simp [writeChar, byteOf_toNat, renderExp, Exp.render]
@@ -144,6 +172,7 @@ theorem numExp_run (ex : Option Exp) (hex : (match ex with | some x => x.wf | no
         simp only []
         rw [hp2, isDecimal_eq, hd]
         simp only [if_true, scanDecimal]
+        rw [numeralEnd_ok_of _ _ false r g2 hra (by intro h; cases h)]
         refine congrArg _ (Prod.ext ?_ rfl)
         rw [g1, e1, c1, f1]
         simp [writeChar, byteOf_toNat, renderExp, Exp.render]
@@ -186,14 +215,21 @@ theorem frac_head (fp : Option Bytes) (p : UInt8 → Bool) (h46 : p 46 = false) 
     simp only [renderFrac, List.cons.injEq] at e
     rw [← e.1]; exact h46
 
+theorem headNot_append_nonempty (p : UInt8 → Bool) (a b : Bytes) (ha : ∀ c a', a = c :: a' → p c = false)
+    (hne : a ≠ []) : HeadNot p (a ++ b) := by
+  cases a with
+  | nil => exact absurd rfl hne
+  | cons c a' => exact HeadNot.cons p c _ (ha c a' rfl)
+
 /-- integer part and fraction, entered with the first digit. -/
 theorem scanNumberFrac_digit (c : UInt8) (hc : LexSpec.isDigit c = true) (ip' : Bytes)
     (hip : ip'.all LexSpec.isDigit = true) (fp : Option Bytes)
     (hfp : (match fp with | some f => f.all LexSpec.isDigit | none => true) = true)
     (ex : Option Exp) (hex : (match ex with | some x => x.wf | none => true) = true)
-    (r : Bytes) (hr : HeadNot numStop r) (s : Sc) (hs : s.rest = ip' ++ (renderFrac fp ++ (renderExp ex ++ r))) :
+    (r : Bytes) (hra : HeadNot LexSpec.isAlnum r) (hdot : ex = none → HeadNot (fun c => c == 46) r)
+    (s : Sc) (hs : s.rest = ip' ++ (renderFrac fp ++ (renderExp ex ++ r))) :
     ∃ s', scanNumberFrac (c.toNat : Int) [] s = (c :: ip' ++ renderFrac fp, s') ∧ s'.rest = renderExp ex ++ r := by
-  have hrd := numStop_digit r hr
+  have hrd := alnum_digit r hra
   have hexd : HeadNot LexSpec.isDigit (renderExp ex ++ r) :=
     headNot_append _ _ _ (exp_head ex hex _ (by decide) (by decide)) hrd
   have hfd : HeadNot LexSpec.isDigit (renderFrac fp ++ (renderExp ex ++ r)) :=
@@ -208,8 +244,11 @@ theorem scanNumberFrac_digit (c : UInt8) (hc : LexSpec.isDigit c = true) (ip' : 
       unfold scanDecimal
       apply peek_not _ _ g2 (fun d => d == 46) _ 46 (by decide)
       simp only [renderFrac, List.nil_append]
-      exact headNot_append _ _ _ (exp_head ex hex _ (by decide) (by decide))
-        (headNot_mono _ _ (fun c h => by simp only [beq_iff_eq] at h; simp [numStop, h]) r hr)
+      cases ex with
+      | none => simpa [renderExp] using hdot rfl
+      | some x =>
+        exact headNot_append_nonempty _ _ _ (exp_head (some x) hex (fun d => d == 46) (by decide) (by decide))
+          (by simp [renderExp, Exp.render])
     refine ⟨(scanDecimal (c.toNat : Int) [] s).2, ?_, by simpa [scanDecimal, renderFrac] using g2⟩
     unfold scanNumberFrac
     rw [if_neg (by intro h; exact hp h.2)]
@@ -234,9 +273,9 @@ theorem scanNumberFrac_digit (c : UInt8) (hc : LexSpec.isDigit c = true) (ip' : 
 /-- a numeral that starts with the dot: the fraction. -/
 theorem scanNumberFrac_dot (f : Bytes) (hf : f.all LexSpec.isDigit = true)
     (ex : Option Exp) (hex : (match ex with | some x => x.wf | none => true) = true)
-    (r : Bytes) (hr : HeadNot numStop r) (s : Sc) (hs : s.rest = f ++ (renderExp ex ++ r)) :
+    (r : Bytes) (hra : HeadNot LexSpec.isAlnum r) (s : Sc) (hs : s.rest = f ++ (renderExp ex ++ r)) :
     ∃ s', scanNumberFrac 46 [] s = (46 :: f, s') ∧ s'.rest = renderExp ex ++ r := by
-  have hrd := numStop_digit r hr
+  have hrd := alnum_digit r hra
   have hexd : HeadNot LexSpec.isDigit (renderExp ex ++ r) :=
     headNot_append _ _ _ (exp_head ex hex _ (by decide) (by decide)) hrd
   obtain ⟨g1, g2⟩ := decimalLoop_run f _ hexd (writeChar [] 46) s hf hs
@@ -251,7 +290,9 @@ theorem scanNumberFrac_dot (f : Bytes) (hf : f.all LexSpec.isDigit = true)
 theorem tokScan_flt (ip : Bytes) (fp : Option Bytes) (ex : Option Exp)
     (hwf : (RTok.num (.flt ip fp ex)).wf = true) (r : Bytes) (hf : follow (.num (.flt ip fp ex)) r = true) :
     TokScan (.num (.flt ip fp ex)) r := by
-  have hr := follow_num _ r hf
+  obtain ⟨hra, hdc⟩ := follow_num _ r hf
+  have hdot : ex = none → HeadNot (fun c => c == 46) r := by
+    intro he; apply hdc; rw [he]; rfl
   simp only [RTok.wf, Numeral.wf, Bool.and_eq_true, Bool.or_eq_true, bne_iff_ne, ne_eq] at hwf
   obtain ⟨⟨⟨hip, hfp⟩, hne⟩, hex⟩ := hwf
   have hrenderN : (Numeral.flt ip fp ex).render = ip ++ (renderFrac fp ++ renderExp ex) := by
@@ -267,8 +308,8 @@ theorem tokScan_flt (ip : Bytes) (fp : Option Bytes) (ex : Option Exp)
       Or.inl (digit_ne_minus c hc), ?_⟩
     intro s hs
     have hs' : s.rest = ip' ++ (renderFrac fp ++ (renderExp ex ++ r)) := by rw [hs]; simp
-    obtain ⟨s1, h1, h1r⟩ := scanNumberFrac_digit c hc ip' hip' fp hfp ex hex r hr s hs'
-    obtain ⟨s2, h2, h2r⟩ := numExp_run ex hex r hr (c :: ip' ++ renderFrac fp) s1 h1r
+    obtain ⟨s1, h1, h1r⟩ := scanNumberFrac_digit c hc ip' hip' fp hfp ex hex r hra hdot s hs'
+    obtain ⟨s2, h2, h2r⟩ := numExp_run ex hex r hra hdot (c :: ip' ++ renderFrac fp) s1 h1r
     refine ⟨s2, ?_, h2r⟩
     -- not the hexadecimal prefix
     have hnx : ¬ ((c.toNat : Int) = 48 ∧ (peek s = 120 ∨ peek s = 88)) := by
@@ -279,7 +320,7 @@ theorem tokScan_flt (ip : Bytes) (fp : Option Bytes) (ex : Option Exp)
           apply headNot_append _ _ _ (exp_head ex hex _ (by decide) (by decide))
           exact headNot_mono _ _ (fun d h => by
             simp only [Bool.or_eq_true, beq_iff_eq] at h
-            rcases h with rfl | rfl <;> decide) r hr
+            rcases h with rfl | rfl <;> decide) r hra
         · intro d hd
           obtain ⟨_, _, _, _, _, _, d120, d88, _⟩ := digit_facts d hd
           simp [d120, d88]
@@ -307,8 +348,8 @@ theorem tokScan_flt (ip : Bytes) (fp : Option Bytes) (ex : Option Exp)
         refine ⟨46, (d :: f') ++ renderExp ex, by rw [hrender]; rfl, by decide, Or.inl (by decide), ?_⟩
         intro s hs
         have hs' : s.rest = (d :: f') ++ (renderExp ex ++ r) := by rw [hs]; simp
-        obtain ⟨s1, h1, h1r⟩ := scanNumberFrac_dot (d :: f') hfd ex hex r hr s hs'
-        obtain ⟨s2, h2, h2r⟩ := numExp_run ex hex r hr (46 :: (d :: f')) s1 h1r
+        obtain ⟨s1, h1, h1r⟩ := scanNumberFrac_dot (d :: f') hfd ex hex r hra s hs'
+        obtain ⟨s2, h2, h2r⟩ := numExp_run ex hex r hra hdot (46 :: (d :: f')) s1 h1r
         refine ⟨s2, ?_, h2r⟩
         have hp : isDecimal (peek s) = true := by
           rw [peek_cons s d _ (by rw [hs']; rfl), isDecimal_eq]; exact hd
@@ -330,7 +371,7 @@ theorem tokScan_dec (ds : Bytes) (hwf : (RTok.num (.dec ds)).wf = true) (r : Byt
   have hwf' : (RTok.num (.flt ds none none)).wf = true := by
     simp only [RTok.wf, Numeral.wf, Bool.and_eq_true, bne_iff_ne, ne_eq] at hwf ⊢
     simp [hwf.1, hwf.2]
-  obtain ⟨c, tail, h1, h2, h3, h4⟩ := tokScan_flt ds none none hwf' r (by simpa [follow] using hf)
+  obtain ⟨c, tail, h1, h2, h3, h4⟩ := tokScan_flt ds none none hwf' r (by simpa [follow, Numeral.dotContinues] using hf)
   have hrd : (RTok.num (.flt ds none none)).render = (RTok.num (.dec ds)).render := by
     simp [RTok.render, Numeral.render]
   refine ⟨c, tail, by rw [← hrd]; exact h1, h2, h3, ?_⟩
@@ -346,7 +387,8 @@ theorem hex_facts (d : UInt8) : LexSpec.isHex d = true → Plain d := by
 
 theorem tokScan_hex (x : UInt8) (hs : Bytes) (hwf : (RTok.num (.hex x hs)).wf = true) (r : Bytes)
     (hf : follow (.num (.hex x hs)) r = true) : TokScan (.num (.hex x hs)) r := by
-  have hr := numStop_hex r (follow_num _ r hf)
+  have hra := (follow_num _ r hf).1
+  have hr := alnum_hex r hra
   simp only [RTok.wf, Numeral.wf, Bool.and_eq_true, Bool.or_eq_true, beq_iff_eq, bne_iff_ne, ne_eq] at hwf
   obtain ⟨⟨hx, hne⟩, hhs⟩ := hwf
   refine ⟨48, x :: hs, rfl, by decide, Or.inl (by decide), ?_⟩
@@ -376,6 +418,8 @@ theorem tokScan_hex (x : UInt8) (hs : Bytes) (hwf : (RTok.num (.hex x hs)).wf = 
   unfold scanNumber
   rw [if_pos hcond]
   simp only [hv, Bool.not_true, Bool.false_eq_true, if_false]
+  rw [numeralEnd_ok_of _ _ false r g2 hra (by intro h; cases h)]
+  simp only []
   rw [g1, e1]
   simp [tokType, tokStr, Numeral.render, writeChar, byteOf_48, byteOf_toNat]
 
